@@ -54,6 +54,19 @@ pub struct Plan6 {
     pub swap_at: Option<(u8, u16)>,
     /// also exercise the argument errors
     pub misuse: bool,
+    /// earlier uses of the SAME `Idpf` object (another report: context, nonce, RNG tape) before
+    /// and between the main evaluations: key generation plus full-path evaluations of both keys
+    #[serde(default)]
+    pub earlier: Vec<Earlier>,
+}
+
+#[derive(Clone, Debug, Serialize, Deserialize, PartialEq)]
+pub struct Earlier {
+    pub ctx: Hx,
+    pub nonce: Hx,
+    pub tape: Hx,
+    /// performed before main evaluation index `at` (0 = before everything)
+    pub at: u16,
 }
 
 /// A cache that loses and evicts entries but never fabricates one.
@@ -276,7 +289,23 @@ fn gen(seed: u64, tier: Tier) -> Plan6 {
         .collect();
     let swap_at = if rng.chance(1, 4) { Some((rng.below(2) as u8, rng.below(evals.len() as u64) as u16)) } else { None };
     let cl = rng.usize_below(12);
-    Plan6 { vtype: vtype.to_string(), input, values, ctx: Hx(rng.bytes(cl)), nonce: Hx(rng.bytes(16)), tape: Hx(rng.bytes(32)), evals, caches, swap_at, misuse: rng.chance(1, 8) }
+    let ctxb = rng.bytes(cl);
+    let nonce = rng.bytes(16);
+    let mut earlier = Vec::new();
+    if rng.chance(1, 3) {
+        for _ in 0..1 + rng.below(2) {
+            let l2 = rng.usize_below(6);
+            let mut c2 = rng.bytes(l2);
+            if c2 == ctxb {
+                c2.push(1);
+            }
+            let n2 = if rng.chance(1, 2) { nonce.clone() } else { rng.bytes(16) };
+            let t2 = rng.bytes(32);
+            let e = Earlier { ctx: Hx(c2), nonce: Hx(n2), tape: Hx(t2), at: if rng.chance(1, 2) { 0 } else { rng.below(evals.len() as u64 + 1) as u16 } };
+            earlier.push(e);
+        }
+    }
+    Plan6 { vtype: vtype.to_string(), input, values, ctx: Hx(ctxb), nonce: Hx(nonce), tape: Hx(rng.bytes(32)), evals, caches, swap_at, misuse: rng.chance(1, 8), earlier }
 }
 
 fn run<VI, VL>(p: &Plan6, ctx: &mut Ctx) -> Result<(), String>
@@ -317,6 +346,43 @@ where
         return Ok(());
     };
     ctx.trace.bytes(&pb);
+    // another report handled by the same Idpf object: its own keys, context and nonce
+    let run_earlier = |e: &Earlier, ctx: &mut Ctx| -> Result<(), String> {
+        prio::verif_hooks::install_tape(e.tape.0.clone());
+        let g = guard("Idpf::gen", || idpf.gen(&input, inner.clone(), leaf.clone(), &e.ctx.0, &e.nonce.0));
+        prio::verif_hooks::remove_tape();
+        let (pu, ks) = match g {
+            Ok(Ok(x)) => x,
+            Ok(Err(err)) => return Err(format!("earlier gen failed: {err}")),
+            Err(v) => {
+                ctx.fail(v);
+                return Ok(());
+            }
+        };
+        let mut outs = Vec::new();
+        for party in 0..2 {
+            match guard("Idpf::eval", || idpf.eval(party, &pu, &ks[party], &input, &e.ctx.0, &e.nonce.0, &mut NoCache::new())) {
+                Ok(Ok(o)) => outs.push(o),
+                Ok(Err(err)) => return Err(format!("earlier eval failed: {err}")),
+                Err(v) => {
+                    ctx.fail(v);
+                    return Ok(());
+                }
+            }
+        }
+        let b = outs.pop().unwrap();
+        let a = outs.pop().unwrap();
+        if let Ok(Ok(IdpfOutputShare::Leaf(v))) = guard("IdpfOutputShare::merge", || a.merge(b)) {
+            if v.get_encoded().map_err(|e| e.to_string())? != p.values[bits - 1].0 {
+                ctx.fail(Violation::new("C06.point_function", "sum|on_path|object_history", "shares of another report handled by the same Idpf object do not reconstruct its leaf value".to_string()));
+            }
+        }
+        ctx.fault("idpf_object_reused_for_another_report");
+        Ok(())
+    };
+    for e in p.earlier.iter().filter(|e| e.at == 0) {
+        run_earlier(e, ctx)?;
+    }
     let mut caches: Vec<Box<dyn IdpfCache>> = p.caches.iter().map(make_cache).collect();
     // pending shares per prefix, to add the two parties' results
     let mut shares: HashMap<(u8, String), Vec<u8>> = HashMap::new();
@@ -324,6 +390,12 @@ where
     let zero_l = VL::zero(&()).get_encoded().map_err(|e| e.to_string())?;
     for (idx, e) in p.evals.iter().enumerate() {
         let party = (e.party % 2) as usize;
+        for x in p.earlier.iter().filter(|x| x.at as usize == idx && idx > 0) {
+            run_earlier(x, ctx)?;
+        }
+        if ctx.failed() {
+            return Ok(());
+        }
         if let Some((sp, at)) = p.swap_at {
             if at as usize == idx {
                 caches[sp as usize % 2] = make_cache(&p.caches[sp as usize % 2]);
